@@ -307,15 +307,16 @@ theorem hashIncrFloat_refines {db : DB} (hw : HWF db) {now : Int} {k : Bytes}
   have hz : Dyadic.zero + d = d := rfl
   rcases hholder hw.wf now k with ⟨h, hg, hk⟩ | ⟨_, h, hl, _, _⟩ | ⟨r, h, _, ht, hg, hk⟩ |
     ⟨r, w, h, _, ht, hg, hv, hk⟩
-  · cases hf : formatFloatDec d with
+  · cases hf : formatFloatDec (f64add .zero d) with
     | none =>
       obtain ⟨x, hx⟩ := hashSetKey_ok_of_absent now h
-      simp [update, Model.hashIncrFloat, hashGetRaw_none hk, hv0, hz, hf, hx, Res.err, Spec.hashIncrFloat,
+      have hf0 : formatFloatDec (f64add 0 d) = none := hf
+      simp [update, Model.hashIncrFloat, hashGetRaw_none hk, hv0, hz, hf0, hx, Res.err, Spec.hashIncrFloat,
         hg, Spec.skip, purge_abs hw.wf.names]
     | some txt =>
       obtain ⟨db2, he, hw2, ha⟩ := setTx_absent hw h f txt now
-      have hm : Model.hashIncrFloat db k f d now = ⟨.ok (.score (.fin d)), db2⟩ := by
-        simp only [Model.hashIncrFloat, hashGetRaw_none hk, Option.getD_none, hv0, hz, hf, he, Res.ok]
+      have hm : Model.hashIncrFloat db k f d now = ⟨.ok (.score (.fin (f64add .zero d))), db2⟩ := by
+        simp only [Model.hashIncrFloat, hashGetRaw_none hk, Option.getD_none, hv0, hf, he, Res.ok]
       simp only [update, hm, Spec.hashIncrFloat, hg, hf, Spec.ok]
       exact ⟨trivial, by rw [← ha, purge_abs hw2.wf.names]⟩
   · exact (HHolder.not_stale hns h hl).elim
@@ -326,7 +327,7 @@ theorem hashIncrFloat_refines {db : DB} (hw : HWF db) {now : Int} {k : Bytes}
     | invalid => simp [Res.err, Spec.er, purge_abs hw.wf.names]
     | unknown => simp [Res.err, Spec.skip, purge_abs hw.wf.names]
     | val x =>
-      cases hf : formatFloatDec (x + d) with
+      cases hf : formatFloatDec (f64add x d) with
       | none =>
         obtain ⟨y, hy⟩ := hashSetKey_ok_of_hash now h ht
         simp [hf, hy, Res.err, Spec.skip, purge_abs hw.wf.names]
@@ -335,7 +336,7 @@ theorem hashIncrFloat_refines {db : DB} (hw : HWF db) {now : Int} {k : Bytes}
         simp [hf, he, Res.ok, Spec.ok, ha]
   · have he := fun v => hashSetTx_other (f := f) (v := v) (now := now) h ht
     have hu := hashSetKey_err_of_other now h ht
-    cases hf : formatFloatDec d <;> cases w <;> first | exact absurd rfl (hv _) |
+    cases hf : formatFloatDec (f64add 0 d) <;> cases w <;> first | exact absurd rfl (hv _) |
       simp [update, Model.hashIncrFloat, hashGetRaw_none hk, hv0, hz, hf, hu, he, Res.err,
         Spec.hashIncrFloat, hg, Spec.er, purge_abs hw.wf.names]
 
